@@ -216,8 +216,17 @@ def diff_obs(a, b, ignore=("nonfinite",), only=None):
     return out
 
 def run_bin(exe, casefile, args=(), timeout=600, env=None):
-    rc, out = sh([exe] + list(args) + [casefile], timeout=timeout, env=env)
-    return rc, out
+    """run a driver; stdout only (the library prints warnings on stderr)"""
+    e = dict(os.environ)
+    if env: e.update(env)
+    try:
+        p = subprocess.run([exe] + list(args) + ([casefile] if casefile else []), env=e, timeout=timeout, stdout=subprocess.PIPE,
+                           stderr=subprocess.PIPE, universal_newlines=True, errors="replace")
+        if p.returncode != 0:
+            return p.returncode, p.stdout + "\n[stderr] " + p.stderr[-800:]
+        return 0, p.stdout
+    except subprocess.TimeoutExpired as ex:
+        return 124, "[timeout after %ss]" % timeout
 
 # ---------------------------------------------------------------- evidence / reporting
 def load_known():
